@@ -105,6 +105,8 @@ class Ctx:
             if hi is not None:
                 self._p.assume(v <= hi)
             return v
+        if name in self.drawn:
+            return self.drawn[name]
         if name in self.inputs:
             v = self.inputs[name]
         elif self._given:
